@@ -20,11 +20,15 @@ from bounded import lib_formats as lf
 
 RULE = ("trees built with tg.build from all shapes with n<=N tokens (every discontinuous shape included) plus "
         "seeded random trees with unary chains and shuffled child lists, words from a pool with punctuation, "
-        "parentheses, XML-special, non-ASCII characters and lengths 7/8/15/16, head/split marks on random nodes; "
+        "parentheses, XML-special, non-ASCII characters and lengths 7/8/15/16/23/24/25/31/32/40 (lemma likewise, "
+        "morph 7/8/15/16/17/24), POS tags with a bracket character ('$(' / '$[') on parenthesis/quote tokens, "
+        "head/split marks on random nodes; "
         "(1) every tree x every writer x a rotating option subset, (2) every subset of the output options a "
         "writer looks at x a rotating tree, (3) every way of leaving lemma/morph/edge absent (None); "
         "one evaluation = (corpus of 1..2 trees, writer, option subset); non-trivial = distinct "
-        "(writer, options, tree) whose tree is discontinuous or whose options/absent fields are non-empty")
+        "(writer, options, tree) whose tree is discontinuous or whose options/absent fields are non-empty; "
+        "(4) export v3/v4 lines with one field (word, lemma, morph) of every length around and beyond the "
+        "tab stops 8/16/24/32/40")
 
 
 def BOUNDS(ctx):
@@ -119,7 +123,10 @@ def expected_specs(fmt, specs, opts):
                 if l.get(f) is None:
                     l[f] = lf.EMPTY
             if fmt in ("brackets", "discobrackets"):
-                l["w"] = lf.ref_replace_parens(l["w"])
+                # "bracket formats map parentheses inside tokens to the documented names": a token is
+                # its word and its POS tag (and the function appended to the tag with gf_terminals)
+                for f in ("w", "l", "e"):
+                    l[f] = lf.ref_replace_parens(l[f])
             if fmt in ("export", "brackets", "discobrackets"):
                 parts = deco_parts(l, True, opts)
                 l["_accept"] = [l["l"] + "".join(p) for p in itertools.permutations(parts)]
@@ -496,13 +503,24 @@ def make_absent(spec, what):
     return s
 
 
+WORDS = lf.WORDS_ALL + lf.LONG_FIELDS
+MORPHS = lf.MORPHS + lf.LONG_MORPHS
+LEMMAS = lf.LEMMAS + lf.LONG_FIELDS[:4]
+PAREN_TAGGED = ("(", ")", "\"", "''", "``", "-", "(x)", "[y]", "(()", "a)b)")
+POS_PAREN = ["$(", "$(", "$["]
+
+
 def _specs(ctx, b):
     rng = ctx.rng
     out = list(tg.enum_specs(b["exhaustive_shapes_n"], rng=rng, per_shape=1))
     out += list(tg.random_specs(rng, b["random_trees"], 1, b["random_max_n"], unary_p=0.3, shuffle=True))
     sid = 0
     for s in out:
-        lf.decorate(s, rng, words=lf.WORDS_ALL)
+        lf.decorate(s, rng, words=WORDS, morphs=MORPHS, lemmas=LEMMAS)
+        for l in tg.spec_leaves(s):
+            # STTS tags parentheses, quotes and dashes "$(": a POS tag with a bracket character
+            if (l["w"] in PAREN_TAGGED and rng.random() < 0.7) or rng.random() < 0.05:
+                l["l"] = rng.choice(POS_PAREN)
         add_marks(s, rng)
         sid += rng.randint(1, 9)
         s["sid"] = sid
@@ -579,6 +597,27 @@ def generate(ctx):
                 for names in optsets:
                     yield "absent_field_" + fmt, {"fmt": fmt, "specs": [s], "opts": _mk_opts(names), "absent": [what]}, \
                         (fmt, what, names, tg.spec_str(s))
+
+
+    # (4) export columns: every field length around / beyond the tab stops, one field at a time
+    for version_opts in ((), ("export_four",)):
+        for field, lengths in (("w", TAB_LENGTHS), ("lem", TAB_LENGTHS), ("m", TAB_MORPH_LENGTHS)):
+            for n in lengths:
+                if field == "lem" and not version_opts:
+                    continue
+                a = tg.leaf_spec(1, "x", "NN", "HD", "--", "--")
+                a[field] = _FILL[:n]
+                bb = tg.leaf_spec(2, "y", "VB", "--", "Nom", "y")
+                top = tg.node_spec("VROOT", [tg.node_spec("S", [a, bb], "--")])
+                top["sid"] = n
+                w = {"fmt": "export", "specs": [top], "opts": _mk_opts(version_opts)}
+                yield "write_export", w, ("export", version_opts, field, n)
+                yield "export_tabstops", w, ("export", version_opts, field, n)
+
+
+TAB_LENGTHS = [1, 6, 7, 8, 9, 14, 15, 16, 17, 22, 23, 24, 25, 26, 30, 31, 32, 33, 39, 40, 41, 48, 64]
+TAB_MORPH_LENGTHS = [1, 2, 6, 7, 8, 9, 14, 15, 16, 17, 18, 23, 24, 25, 32]
+_FILL = "Abcdefgh" * 8
 
 
 def exhaustive(ctx):
